@@ -322,7 +322,7 @@ def cases(draw):
         tol = phasor.tolerance(c["limit"], vt, rt)
         lo = [s0 * 0.5 * direction[i] for i in range(n)]
         sched = [[lo[i]] * T for i in range(n)]
-        spots = [T - 1 - draw(st.integers(0, 200)), draw(st.integers(0, T - 1))]
+        spots = [T - 1, T - 1 - draw(st.integers(0, 200)), draw(st.integers(0, T - 1))]
         for t in spots:
             delta = draw(st.sampled_from([3 * tol, -3 * tol, 1e-3 * c["limit"], -1e-3 * c["limit"], 0.5 * c["limit"]]))
             sc_ = max(0.0, (c["limit"] + tol + delta) / g)
